@@ -172,9 +172,7 @@ class DictDecoder:
         Returns:
             An instance of the class type representing the parsed content.
         """
-        qname = data["qname"]
-        xsi_type = data.get("type")
-        params = data["value"]
+        qname, xsi_type, params = self.derived_parts(data)
 
         generic = self.context.class_type.derived_element
 
@@ -184,9 +182,9 @@ class DictDecoder:
                 real_clazz = self.context.find_type(xsi_type)
 
             if real_clazz is None:
+                keys = list(params.keys()) if isinstance(params, dict) else params
                 raise ParserError(
-                    f"Unable to locate derived model "
-                    f"with properties({list(params.keys())})"
+                    f"Unable to locate derived model with properties({keys})"
                 )
 
             value = self.bind_dataclass(params, real_clazz)
@@ -194,6 +192,23 @@ class DictDecoder:
             value = self.bind_dataclass(params, clazz)
 
         return generic(qname=qname, type=xsi_type, value=value)
+
+    @classmethod
+    def derived_parts(cls, data: dict) -> tuple[str, str | None, Any]:
+        """Return the qname, type and value of a derived element dictionary.
+
+        Raises:
+            ParserError: If the qname or the type is not a string
+        """
+        qname = data["qname"]
+        xsi_type = data.get("type")
+        if not isinstance(qname, str) or not isinstance(xsi_type, (str, type(None))):
+            raise ParserError(
+                f"Invalid derived element, qname `{qname}` and type `{xsi_type}` "
+                f"must be strings"
+            )
+
+        return qname, xsi_type, data["value"]
 
     def bind_best_dataclass(self, data: dict, classes: Iterable[type[T]]) -> T:
         """Bind the input data to all the given classes and return best match.
@@ -390,9 +405,7 @@ class DictDecoder:
         Returns:
             The parsed object.
         """
-        qname = data["qname"]
-        xsi_type = data.get("type")
-        params = data["value"]
+        qname, xsi_type, params = self.derived_parts(data)
 
         if var.elements:
             choice = var.find_choice(qname)
